@@ -388,12 +388,13 @@ fn body_worlds(space: crate::world::Space) -> impl Fn(&Ch) -> Run + Sync + Send 
     w.remote = true; // remote modules also exercise the lockfile writes
     let roots = w.roots();
     let is_dynamic = ch.flag("dynamic_roots");
+    let kind = *ch.pick("graph_kind", &[GraphKind::All, GraphKind::CodeOnly, GraphKind::TypesOnly]);
     let build = |mode: SchedMode, hook: bool| -> (Value, Value, Vec<String>, Vec<String>, Result<(), DriveError>) {
       let sched = Sched::new(mode);
       let loader = ScriptedLoader::new(sched.clone());
       w.install(&loader);
       let mut locker = RecordingLocker::default();
-      let mut graph = ModuleGraph::new(GraphKind::All);
+      let mut graph = ModuleGraph::new(kind);
       if hook {
         let ch2 = ch.clone();
         deno_graph::verif_hooks::set_drain_order_callback(Some(Box::new(move |site, n| {
@@ -417,7 +418,7 @@ fn body_worlds(space: crate::world::Space) -> impl Fn(&Ch) -> Run + Sync + Send 
     let reference = build(SchedMode::Immediate, false);
     let got = build(SchedMode::Gated, true);
     run.evals = 1;
-    let case = |extra: Value| json!({"world": w.describe(), "dynamic_roots": is_dynamic, "schedule": got.3, "detail": extra});
+    let case = |extra: Value| json!({"world": w.describe(), "dynamic_roots": is_dynamic, "graph_kind": format!("{kind:?}"), "schedule": got.3, "detail": extra});
     if got.4.is_err() {
       run.violate("build-did-not-finish@generated-world", format!("{:?}", got.4), case(json!({})));
     } else if got.0 != reference.0 {
@@ -426,7 +427,7 @@ fn body_worlds(space: crate::world::Space) -> impl Fn(&Ch) -> Run + Sync + Send 
     } else if got.1 != reference.1 || got.2 != reference.2 {
       run.violate("lockfile-depends-on-schedule@generated-world", "lockfile content or writes differ from the all-ready run", case(json!({"explored": got.2, "all_ready": reference.2})));
     }
-    run.state_key = hash_of(&(w.key(), is_dynamic, &got.3));
+    run.state_key = hash_of(&(w.key(), is_dynamic, format!("{kind:?}"), &got.3));
     run.extra_states.push((w.key(), true));
     run.nontrivial = got.3.len() >= 3;
     run.outcome_key = hash_of(&(w.key(), &got.3));
